@@ -69,7 +69,7 @@ def dft_tol(f, ar, ac, maxphase, unitary=True, c=64.0):
     error <= eps*(|phase|+few) and the accumulation ~ eps*sqrt(terms)."""
     f = np.asarray(f)
     s = float(np.sum(np.abs(f)))
-    norm = float(np.sqrt(abs(float(ar) * float(ac)))) if unitary else 1.0
+    norm = float(np.sqrt(abs(float(ar))) * np.sqrt(abs(float(ac)))) if unitary else 1.0
     return c * EPS * (4.0 + maxphase + np.sqrt(f.size)) * s * norm + 1e-300
 
 
